@@ -910,6 +910,10 @@ Proof. intros Hx Hk <- Hv Hl. cbn [exec]. rewrite Hx, Hk. destruct (eval e r); t
 Lemma exec_append_ok x e r l v : lookup x r = VList l -> eval e r = v -> is_bad v = false -> exec (SAppend x e) r = ONorm (set x (VList (l ++ [v])) r).
 Proof. intros Hx <- H. cbn [exec]. rewrite Hx. destruct (eval e r); try discriminate H; reflexivity. Qed.
 
+Lemma exec_setitem_dict x k e r d kv v : lookup x r = VDict d -> eval k r = kv -> eval e r = v -> is_bad kv = false -> is_bad v = false ->
+  exec (SSetItem x k e) r = ONorm (set x (VDict (dict_set kv v d)) r).
+Proof. intros Hx <- <- Hk Hv. cbn [exec]. rewrite Hx. destruct (eval k r); try discriminate Hk; destruct (eval e r); try discriminate Hv; reflexivity. Qed.
+
 Lemma exec_if_true c a b r : truthy (eval c r) = VBool true -> exec (SIf c a b) r = exec a r.
 Proof. intros H. rewrite exec_if, H. reflexivity. Qed.
 Lemma exec_if_false c a b r : truthy (eval c r) = VBool false -> exec (SIf c a b) r = exec b r.
@@ -981,6 +985,7 @@ Arguments eval_sub_Q {prim}.
 Arguments exec_assign_ok {prim wfuel}.
 Arguments exec_setitem_list {prim wfuel}.
 Arguments exec_if_true {prim wfuel}.
+Arguments exec_setitem_dict {prim wfuel}.
 Arguments exec_append_ok {prim wfuel}.
 Arguments exec_if_false {prim wfuel}.
 Arguments exec_return_ok {prim wfuel}.
